@@ -4,7 +4,7 @@ import re
 
 from ..core import AnalysisError
 from .. import pyfront as P
-from .. import pycfg
+from .. import pycfg, gsa
 
 EXPLANATION = ('Guarded-effect tables of giscanner/introspectablepass.py and maintransformer.py: every unbindable clause of the property '
                'has a row that demotes the parent; every warning about a parameter is paired with the demotion; the type predicate rejects '
@@ -21,55 +21,88 @@ def check(ctx):
     m = py.mod(IP)
     rel = m.rel
 
-    # ------------------------------------------------------------------ R1 demotion completeness
+    # ------------------------------------------------------------------ R1 demotion completeness (gated summary)
     r1 = ctx.rule('R1', 'every unbindable parameter/return clause demotes the callable; warn => demote', floor=14)
     f = py.func(IP, 'IntrospectablePass._introspectable_param_analysis')
-    eff = P.effects(f)
-    dem = [e for e in eff if e.kind == 'store' and e.target == 'parent.introspectable' and e.value == 'False']
+    PA = gsa.summarise(ctx, IP, 'IntrospectablePass._introspectable_param_analysis', opaque=('_type_is_introspectable', '_parameter_warning'))
+    par, nod = re.escape(PA.P(1)), re.escape(PA.P(2))
+    dem = gsa.find(PA, 'store', r'^%s\.introspectable$' % par, r'^False$')
+    D = gsa.cond_any(dem)
+    BASE = [(r'^%s\.skip$' % nod, False), (r'^%s\.type\.resolved$' % nod, True), (r'^isinstance\(%s\.type, ast\.Varargs\)$' % nod, False)]
+    NOLIST = [(r'^isinstance\(%s\.type, ast\.(List|Array)\)$' % nod, False)]
+    ISPAR = [(r'^isinstance\(%s, ast\.Parameter\)$' % nod, True), (r'^isinstance\(%s, ast\.Return\)$' % nod, False)]
+    ISRET = [(r'^isinstance\(%s, ast\.Parameter\)$' % nod, False), (r'^isinstance\(%s, ast\.Return\)$' % nod, True)]
+    CBK = r'^isinstance\(.*, ast\.Callback\)$'
     clauses = {
-        'unresolved type': ['not node.type.resolved'],
-        'varargs': ['isinstance(node.type, ast.Varargs)'],
-        'list/array without element type': ['isinstance(node.type, (ast.List, ast.Array))', 'node.type.element_type == ast.TYPE_ANY'],
-        'callback parameter without scope': ['is_parameter', 'isinstance(target, ast.Callback)', 'node.scope is None', "'GLib.DestroyNotify', 'Gio.AsyncReadyCallback'"],
-        'callback return value': ['is_return and isinstance(target, ast.Callback)'],
-        'owned bare struct return': ['isinstance(target, (ast.Record, ast.Union))', 'node.transfer != ast.PARAM_TRANSFER_NONE', 'target.get_type is None'],
-        'missing transfer': ['node.transfer is None'],
+        'unresolved type': [(r'^%s\.skip$' % nod, False), (r'^%s\.type\.resolved$' % nod, False)],
+        'varargs': [(r'^%s\.skip$' % nod, False), (r'^%s\.type\.resolved$' % nod, True), (r'^isinstance\(%s\.type, ast\.Varargs\)$' % nod, True)],
+        'list without element type': BASE + [(r'^isinstance\(%s\.type, ast\.List\)$' % nod, True), (r'^isinstance\(%s\.type, ast\.Array\)$' % nod, False), (r'element_type == ast\.TYPE_ANY$', True)],
+        'array without element type': BASE + [(r'^isinstance\(%s\.type, ast\.List\)$' % nod, False), (r'^isinstance\(%s\.type, ast\.Array\)$' % nod, True), (r'element_type == ast\.TYPE_ANY$', True)],
+        'callback parameter without scope': BASE + NOLIST + ISPAR + [(CBK, True), (r"gi_name == '(GLib\.DestroyNotify|Gio\.AsyncReadyCallback)'$", False), (r'^%s\.scope is None$' % nod, True)],
+        'callback return value': BASE + NOLIST + ISRET + [(CBK, True)],
+        'owned bare struct return': BASE + NOLIST + ISRET + [(CBK, False), (r'ast\.Record\)$', True), (r'ast\.Union\)$', False), (r'\.get_type is None$', True), (r'\.(copy_func|free_func) is None$', True),
+                                                          (r'\.foreign$', False), (r'^%s\.transfer == ast\.PARAM_TRANSFER_NONE$' % nod, False), (r'^%s\.transfer is None$' % nod, False)],
+        'missing transfer': BASE + NOLIST + ISPAR + [(CBK, False), (r'ast\.(Record|Union)\)$', False), (r'^%s\.transfer is None$' % nod, True)],
     }
-    for what, atoms in sorted(clauses.items()):
-        ok = any(all(any(a in g for g in e.gtexts()) for a in atoms) and not any(g.startswith('not (') and any(a in g for a in atoms) for g in e.gtexts()) for e in dem)
-        r1.check(ok, what, rel, f.lineno, 'no `parent.introspectable = False` under %s: a callable with such a %s stays introspectable' % (atoms, what),
-                 detail=atoms)
-    warns = [e for e in eff if e.kind == 'call' and e.target == 'self._parameter_warning']
+    for what, spec in sorted(clauses.items()):
+        v = gsa.ev3(D, gsa.valuation(PA, spec))
+        r1.check(v is True, what, rel, f.lineno, 'a parameter/return value with %s does not (always) set `%s.introspectable = False` (condition evaluates to %s): the callable stays introspectable'
+                 % (what, PA.P(1), v), detail=str(v))
+    warns = gsa.find(PA, 'call', r'^self\._parameter_warning$')
     for w_ in warns:
-        blk = P.block_of(w_.stmt)
-        texts = [P.src(s) for s in blk[2][blk[3]:]] if blk else []
-        r1.check('parent.introspectable = False' in texts, 'warning at line-group %s is paired with demotion' % (w_.value[40:80].strip()), rel, w_.line,
+        r1.check(gsa.implies(w_.cond, D), 'warning %s is paired with demotion' % (w_.args[2][:40] if len(w_.args) > 2 else ''), rel, w_.line,
                  'a parameter problem is warned about but the callable is not marked non-introspectable')
     # skipped values are exempt, and aliases are looked through before the callback tests
-    td = [P.src(v) for t, v, st in P.stores_in(f) if isinstance(t, ast.Name) and t.id == 'target']
-    r1.check(td == ['self._transformer.lookup_typenode(node.type)', 'self._transformer.resolve_aliases(target)'], 'type target resolved through aliases', rel, f.lineno,
-             'target is computed as %s: a parameter typed through a typedef alias of a callback is not recognised as a callback (no scope required, callback return allowed)' % td,
-             detail=td)
-    first_ret = sorted([n for n in P.walk_no_nested(f) if isinstance(n, ast.Return)], key=lambda n: n.lineno)[0]
-    r1.check([g.text() for g in P.guards(first_ret)] == ['node.skip'], 'skipped values are not analysed', rel, first_ret.lineno, 'first return guarded by %s' % [g.text() for g in P.guards(first_ret)])
+    cb_atoms = [a_ for a_ in PA.atoms() if re.search(CBK, a_)]
+    r1.check(cb_atoms and all('resolve_aliases(' in a_ and 'lookup_typenode(' in a_ for a_ in cb_atoms), 'type target resolved through aliases', rel, f.lineno,
+             'the callback tests look at %s: a parameter typed through a typedef alias of a callback is not recognised as a callback (no scope required, callback return allowed)' % cb_atoms,
+             detail=cb_atoms)
+    r1.check(gsa.ev3(D, gsa.valuation(PA, [(r'^%s\.skip$' % nod, True)])) is False, 'skipped values are not analysed', rel, f.lineno, 'a skipped parameter can still demote its callable')
 
     # ------------------------------------------------------------------ R2 type predicate
     r2 = ctx.rule('R2', '_type_is_introspectable rejects unresolved/unknown/va_list/long long/long double/missing or hidden targets, recurses into containers', floor=9)
     tp = py.func(IP, 'IntrospectablePass._type_is_introspectable')
-    rets = [(P.src(n.value), [g.text() for g in P.guards(n) if g.kind in ('if', 'early')], n.lineno) for n in P.walk_no_nested(tp) if isinstance(n, ast.Return)]
+    TP = gsa.summarise(ctx, IP, 'IntrospectablePass._type_is_introspectable')
+    tv = re.escape(TP.P(1))
 
-    def has_ret(value, atoms):
-        return any(v == value and all(any(a in g and not g.startswith('not (') for g in gs) for a in atoms) for v, gs, ln in rets)
-    for what, atoms in (('unresolved', ['not typeval.resolved']), ('TypeUnknown', ['isinstance(typeval, ast.TypeUnknown)']), ('va_list', ['typeval.is_equiv(ast.TYPE_VALIST)']),
-                        ('long long / long double', ['typeval.is_equiv((ast.TYPE_LONG_LONG, ast.TYPE_LONG_ULONG, ast.TYPE_LONG_DOUBLE))']), ('unknown target', ['not target'])):
-        r2.check(has_ret('False', atoms), '%s -> not introspectable' % what, rel, tp.lineno, 'no `return False` under %s' % atoms, detail=atoms)
-    r2.check(any(v == 'target.introspectable and (not target.skip)' for v, gs, ln in rets), 'target must itself be introspectable and not skipped', rel, tp.lineno,
-             'final return is %s' % [v for v, gs, ln in rets][-1:])
-    r2.check(has_ret('self._type_is_introspectable(typeval.element_type)', ['isinstance(typeval, (ast.Array, ast.List))']), 'recursion into list/array elements', rel, tp.lineno, 'element recursion changed')
-    r2.check(any('self._type_is_introspectable(typeval.key_type)' in v and 'self._type_is_introspectable(typeval.value_type)' in v for v, gs, ln in rets), 'recursion into map key and value', rel, tp.lineno,
-             'map recursion changed')
-    order = [v for v, gs, ln in sorted(rets, key=lambda r_: r_[2])]
-    r2.check(order[:2] == ['False', 'False'], 'resolution checked first', rel, tp.lineno, 'order of returns: %s' % order[:3])
+    def tdecide(resolved=True, unknown=False, kind=None, foreign=False, fundamental=None, found=True):
+        def dec(a_):
+            if re.search(r'^%s\.resolved$' % tv, a_):
+                return resolved
+            mm = re.search(r'^isinstance\(%s, ast\.(\w+)\)$' % tv, a_)
+            if mm:
+                return (mm.group(1) == 'TypeUnknown' and unknown) or mm.group(1) == kind
+            if re.search(r'^%s\.target_foreign$' % tv, a_):
+                return foreign
+            if re.search(r'^%s\.target_fundamental$' % tv, a_):
+                return fundamental is not None
+            mm = re.search(r'^%s\.is_equiv\((.*)\)$' % tv, a_)
+            if mm:
+                return fundamental is not None and fundamental in re.findall(r'ast\.(TYPE_\w+)', mm.group(1))
+            if re.search(r'lookup_typenode\(%s\)$' % tv, a_):
+                return found
+            return None
+        return dec
+
+    def verdict(**kw):
+        return gsa.truth_returns(TP, tdecide(**kw))
+    for what, kw in (('unresolved', dict(resolved=False)), ('TypeUnknown', dict(unknown=True)), ('va_list', dict(fundamental='TYPE_VALIST')), ('long long', dict(fundamental='TYPE_LONG_LONG')),
+                     ('unsigned long long', dict(fundamental='TYPE_LONG_ULONG')), ('long double', dict(fundamental='TYPE_LONG_DOUBLE')), ('unknown target', dict(found=False))):
+        got = verdict(**kw)
+        r2.check(got == [(False, True)], '%s -> not introspectable' % what, rel, tp.lineno, 'a type that is %s is judged %s' % (what, got), detail=str(got))
+    got = verdict(fundamental='TYPE_INT')
+    r2.check(got == [(True, True)], 'ordinary fundamental types are introspectable', rel, tp.lineno, 'gint is judged %s' % got)
+    got = verdict()
+    r2.check(len(got) == 1 and isinstance(got[0][0], str) and re.search(r'\.introspectable and \(?not .*\.skip\)?$', got[0][0]), 'target must itself be introspectable and not skipped', rel, tp.lineno,
+             'for a registered target the verdict is %s' % got)
+    for kind in ('Array', 'List'):
+        got = verdict(kind=kind)
+        r2.check(got == [('self._type_is_introspectable(%s.element_type)' % TP.P(1), True)], 'recursion into %s elements' % kind.lower(), rel, tp.lineno, 'element recursion changed: %s' % got)
+    got = verdict(kind='Map')
+    r2.check(len(got) == 1 and isinstance(got[0][0], str) and '_type_is_introspectable(%s.key_type)' % TP.P(1) in got[0][0] and '_type_is_introspectable(%s.value_type)' % TP.P(1) in got[0][0] and ' and ' in got[0][0],
+             'recursion into map key and value', rel, tp.lineno, 'map recursion changed: %s' % got)
+    got = verdict(resolved=False, kind='Array')
+    r2.check(got == [(False, True)], 'resolution checked first', rel, tp.lineno, 'an unresolved array type is judged %s' % got)
 
     # ------------------------------------------------------------------ R3 coverage of type-carrying members, propagation rounds
     r3 = ctx.rule('R3', 'every type-carrying member kind has a demoting site in a registered pass; propagation rounds', floor=10)
@@ -87,76 +120,95 @@ def check(ctx):
     r3.check(loops_around, 'callable propagation reaches a fixed point', rel, val.lineno,
              'validate() propagates non-introspectability with a fixed number of walks (%d): a dependency chain of depth three (function -> callback -> callback with a '
              'va_list parameter, visited in that order) leaves the function introspectable although it uses a non-introspectable type' % n_prop, detail=n_prop)
+    OPQ = ('_type_is_introspectable', '_parameter_warning')
+    TI = r'_type_is_introspectable\(%s\)$'
     sites = {
-        'alias target': ('_introspectable_alias_analysis', 'obj.introspectable', 'self._type_is_introspectable(obj.target)'),
-        'parameter types': ('_introspectable_callable_analysis', 'obj.introspectable', 'self._type_is_introspectable(param.type)'),
-        'return type': ('_introspectable_callable_analysis', 'obj.introspectable', 'self._type_is_introspectable(obj.retval.type)'),
-        'field types': ('_introspectable_pass3', 'field.introspectable', 'self._type_is_introspectable(field.type)'),
-        'embedded callbacks of fields': ('_introspectable_pass3', 'field.introspectable', 'field.anonymous_node.introspectable'),
-        'property types': ('_introspectable_property_analysis', 'prop.introspectable', 'self._type_is_introspectable(prop.type)'),
+        'alias target': ('_introspectable_alias_analysis', TI % r'\w+\.target'),
+        'parameter types': ('_introspectable_callable_analysis', TI % r'\w+\.type'),
+        'return type': ('_introspectable_callable_analysis', TI % r'\w+\.retval\.type'),
+        'field types': ('_introspectable_pass3', TI % r'\w+\.type'),
+        'embedded callbacks of fields': ('_introspectable_pass3', r'\.anonymous_node\.introspectable$'),
+        'property types': ('_introspectable_property_analysis', TI % r'\w+\.type'),
     }
-    for what, (fn, target, atom) in sorted(sites.items()):
-        ff = py.func(IP, 'IntrospectablePass.' + fn)
-        ok = any(e.kind == 'store' and e.target == target and e.value == 'False' and any(atom in g and g.startswith('not ') for g in e.gtexts()) for e in P.effects(ff))
-        r3.check(ok, '%s demote via %s' % (what, fn), rel, ff.lineno, 'no `%s = False` under `not %s` in %s' % (target, atom, fn))
-    p3 = py.func(IP, 'IntrospectablePass._introspectable_pass3')
-    r3.check(any(P.src(c) == 'self._introspectable_callable_analysis(sig, [obj])' for c in P.calls_in(p3)), 'signals analysed like callables', rel, p3.lineno, 'signals are no longer analysed')
-    an = py.func(IP, 'IntrospectablePass._analyze_node')
-    r3.check(sum(1 for c in P.calls_in(an) if P.call_name(c) == 'self._introspectable_param_analysis') == 2, 'parameters and return value analysed', rel, an.lineno, '_analyze_node changed')
-    ca = py.func(IP, 'IntrospectablePass._introspectable_callable_analysis')
-    inl = [e for e in P.effects(ca) if e.kind == 'store' and e.target == 'obj.introspectable' and e.under('obj.is_inline', True)]
-    r3.check(bool(inl), 'inline functions are not callable from bindings', rel, ca.lineno, 'inline demotion changed')
+    for what, (fn, atom) in sorted(sites.items()):
+        SS = gsa.summarise(ctx, IP, 'IntrospectablePass.' + fn, opaque=OPQ + ('_introspectable_callable_analysis',) if fn == '_introspectable_pass3' else OPQ)
+        cands = gsa.find(SS, 'store', r'^\w+\.introspectable$', r'^False$')
+        ok = [e for e in cands if gsa.depends_negatively(e.cond, atom) and gsa.allowed(SS, e, [(atom, False), (r'\.skip$', False)])]
+        r3.check(bool(ok), '%s demote via %s' % (what, fn), rel, SS.func.lineno, 'no `<x>.introspectable = False` exactly when `%s` is false in %s (candidates: %s)' % (atom, fn, [c.when()[:120] for c in cands]))
+    P3 = gsa.summarise(ctx, IP, 'IntrospectablePass._introspectable_pass3', opaque=OPQ + ('_introspectable_callable_analysis',))
+    p3 = P3.func
+    sigc = [c for c in gsa.find(P3, 'call', r'^self\._introspectable_callable_analysis$') if any(l.endswith('.signals') for l in c.loops)]
+    r3.check(bool(sigc) and all(len(c.args) == 2 and c.args[1] == '[%s]' % P3.P(1) for c in sigc), 'signals analysed like callables', rel, p3.lineno, 'signals are no longer analysed (calls: %s)' % [c.value for c in sigc])
+    AN = gsa.summarise(ctx, IP, 'IntrospectablePass._analyze_node', opaque=OPQ + ('_introspectable_param_analysis',))
+    pac = gsa.find(AN, 'call', r'^self\._introspectable_param_analysis$')
+    r3.check(any(any(l.endswith('.parameters') for l in c.loops) for c in pac) and any(len(c.args) > 1 and c.args[1].endswith('.retval') for c in pac), 'parameters and return value analysed', rel, AN.func.lineno,
+             '_analyze_node changed: %s' % [c.value for c in pac])
+    CA = gsa.summarise(ctx, IP, 'IntrospectablePass._introspectable_callable_analysis', opaque=OPQ)
+    ca = CA.func
+    co = re.escape(CA.P(1))
+    inl = gsa.ev3(gsa.cond_any(gsa.find(CA, 'store', r'^%s\.introspectable$' % co, r'^False$')),
+                  gsa.valuation(CA, [(r'^%s\.is_inline$' % co, True), (r'^isinstance\(%s, ast\.Function\)$' % co, True), (r'^%s\.skip$' % co, False),
+                                        (r'_type_is_introspectable\(', True)])) is True
+    r3.check(inl, 'inline functions are not callable from bindings', rel, ca.lineno, 'inline demotion changed')
 
     # ------------------------------------------------------------------ R4 cross references
     r4 = ctx.rule('R4', 'cross references: accessors paired on both sides, cleared together, emitter checked pairwise, names via raising lookups', floor=9)
     mt = py.mod(MT)
-    pa = py.func(MT, 'MainTransformer._pair_property_accessors')
-    pe = [e for e in P.effects(pa) if e.kind == 'store']
-    for kind, mattr, pattr in (('setter', 'method.set_property', 'prop.setter'), ('getter', 'method.get_property', 'prop.getter')):
-        ms = [e for e in pe if e.target == mattr]
-        ps = [e for e in pe if e.target == pattr and e.value == 'method.name']
-        r4.check(bool(ps), 'property %s recorded from the matching method' % kind, mt.rel, pa.lineno, 'no `%s = method.name`' % pattr)
-        # on every row that records the pairing, the method side is set to this property
-        none_row = [e for e in ms if e.value == 'prop.name' and any(g == '%s is None' % mattr for g in e.gtexts())]
-        mism_row = [e for e in ms if e.value == 'prop.name' and any('%s != prop.name' % mattr in g for g in e.gtexts())]
-        r4.check(bool(none_row) and bool(mism_row), '%s: method side agrees with the property (also after a mismatching annotation)' % kind, mt.rel, pa.lineno,
-                 'when a method matched as %s carries a different (%s) annotation the mismatch is warned about but %s is %s: property says %s="<method>" while the '
-                 'method says glib:%s="<other property>"' % (kind, mattr.split('.')[1].replace('_', '-'), mattr, 'not corrected' if not mism_row else 'ok', kind,
-                                                             mattr.split('.')[1].replace('_', '-')), detail=[repr(e) for e in ms][:3])
-    ia = py.func(IP, 'IntrospectablePass._introspectable_property_analysis')
-    ie = [e for e in P.effects(ia) if e.kind == 'store']
-    r4.check(all(any(e.target == t and e.value == 'None' for e in ie) for t in ('prop.setter', 'prop.getter', 'method.set_property', 'method.get_property')), 'non-introspectable property clears all four references', rel,
-             ia.lineno, 'stores: %s' % [repr(e) for e in ie])
+    PAIR = gsa.summarise(ctx, MT, 'MainTransformer._pair_property_accessors')
+    pa = PAIR.func
+    for kind, mattr, pattr in (('setter', 'set_property', 'setter'), ('getter', 'get_property', 'getter')):
+        ms = gsa.find(PAIR, 'store', r'^\w+\.%s$' % mattr, r'^\w+\.name$')
+        ps = gsa.find(PAIR, 'store', r'^\w+\.%s$' % pattr, r'^\w+\.name$')
+        r4.check(bool(ps), 'property %s recorded from the matching method' % kind, mt.rel, pa.lineno, 'no `<prop>.%s = <method>.name`' % pattr)
+        # whenever the pairing may be recorded, the method side ends up naming this property (or already did)
+        agree = gsa.disj(gsa.cond_any(ms), *[gsa.atom(a_) for a_ in PAIR.atoms() if re.search(r'^\w+\.%s == \w+\.name$' % mattr, a_)])
+        cover = [e for e in ps if not gsa.implies(e.cond, agree)]
+        r4.check(bool(ps) and bool(ms) and not cover, '%s: method side agrees with the property (also after a mismatching annotation)' % kind, mt.rel, pa.lineno,
+                 'when a method matched as %s carries a different (%s) annotation the mismatch is warned about but the method side is not corrected: property says %s="<method>" while the '
+                 'method says glib:%s="<other property>"' % (kind, mattr.replace('_', '-'), kind, mattr.replace('_', '-')), detail=[repr(e)[:200] for e in ms][:3])
+    IA = gsa.summarise(ctx, IP, 'IntrospectablePass._introspectable_property_analysis', opaque=OPQ)
+    ia = IA.func
+    cleared = dict((t, gsa.find(IA, 'store', r'^\w+\.%s$' % t, r'^None$')) for t in ('setter', 'getter', 'set_property', 'get_property'))
+    r4.check(all(cleared.values()) and all(any(gsa.impossible(IA, e, [(TI % r'\w+\.type', True)]) for e in cleared[t]) for t in ('setter', 'getter'))
+             and all(any(gsa.impossible(IA, e, [(r'^\w+\.introspectable$', True)]) for e in cleared[t]) for t in ('set_property', 'get_property')),
+             'non-introspectable property clears all four references', rel, ia.lineno, 'stores: %s' % dict((k, [repr(e)[:160] for e in v]) for k, v in cleared.items()))
     # emitter consistency
-    loops = [n for n in P.walk_no_nested(ca) if isinstance(n, ast.For) and isinstance(n.target, ast.Tuple) and P.call_name(n.iter) == 'enumerate' and 'obj.parameters' in P.src(n.iter)]
-    if len(loops) != 1:
-        raise AnalysisError('_introspectable_callable_analysis: emitter parameter walk not found')
-    lp = loops[0]
-    iv = lp.target.elts[0].id
-    mp = [(P.src(v), st) for t, v, st in P.stores_in(lp) if isinstance(t, ast.Name) and 'method.parameters[' in P.src(v)]
-    r4.check(len(mp) == 1 and mp[0][0] == 'method.parameters[%s]' % iv, 'emitter: signal parameter i is compared with method parameter i', rel, lp.lineno,
-             'the emitter check pairs signal parameter %s with %s: the instance parameter is not part of method.parameters, so this is off by one and raises IndexError '
-             'for every (emitter) on a signal with arguments' % (iv, [x for x, s_ in mp]), detail=[x for x, s_ in mp])
-    clr = [e for e in P.effects(ca) if e.kind == 'store' and e.target == 'obj.emitter' and e.value == 'None' and any('is_equiv(method_param.type)' in g for g in e.gtexts())]
-    r4.check(len(clr) == 1 and any(g.startswith('not ') and 'signal_param.type.is_equiv(method_param.type)' in g for g in clr[0].gtexts()), 'emitter dropped only when parameter types differ', rel,
-             clr[0].line if clr else lp.lineno, 'emitter is cleared under %s' % (clr[0].gtexts() if clr else None), detail=clr[0].gtexts()[-1:] if clr else None)
-    cnt = [e for e in P.effects(ca) if e.kind == 'store' and e.target == 'obj.emitter' and any('n_emitter_params != n_signal_params' in g for g in e.gtexts())]
-    nd = dict((t.id, P.src(v)) for t, v, st in P.stores_in(ca) if isinstance(t, ast.Name))
-    r4.check(bool(cnt) and nd.get('n_emitter_params') == 'len(method.parameters)' and nd.get('n_signal_params') == 'len(obj.parameters)', 'emitter: parameter counts compared', rel, ca.lineno, 'count check changed')
+    cmpc = [c for c in gsa.find(CA, 'call', r'^\w+\.type\.is_equiv$') if c.args and re.search(r'\.parameters\[', c.args[0])]
+    okidx = False
+    detail = [c.value for c in cmpc]
+    for c in cmpc:
+        mm = re.match(r'^(\w+)\.parameters\[(\w+)\]\.type$', c.args[0])
+        lp_ok = any(re.search(r'^enumerate\(%s\.parameters\)' % co, l) for l in c.loops)
+        if mm and lp_ok:
+            # the index variable must be the enumerate counter of the signal's own parameters and the receiver the loop element
+            for n in ast.walk(ca):
+                if isinstance(n, ast.For) and isinstance(n.target, ast.Tuple) and len(n.target.elts) == 2 and P.call_name(n.iter) == 'enumerate' and \
+                        isinstance(n.target.elts[0], ast.Name) and n.target.elts[0].id == mm.group(2):
+                    okidx = True
+    r4.check(okidx, 'emitter: signal parameter i is compared with method parameter i', rel, ca.lineno,
+             'the emitter check compares %s: the instance parameter is not part of method.parameters, so an offset is off by one and raises IndexError '
+             'for every (emitter) on a signal with arguments' % detail, detail=detail)
+    EQ = r'^\w+\.type\.is_equiv\(\w+\.parameters\[\w+\]\.type\)$'
+    clr = [e for e in gsa.find(CA, 'store', r'^%s\.emitter$' % co, r'^None$') if any(re.search(EQ, a_) for a_ in gsa.atoms(e.cond))]
+    r4.check(len(clr) >= 1 and all(gsa.impossible(CA, e, [(EQ, True)]) and gsa.allowed(CA, e, [(EQ, False), (r'\.skip$|is_inline$| is None$', False)]) for e in clr),
+             'emitter dropped only when parameter types differ', rel, clr[0].line if clr else ca.lineno, 'emitter is cleared when %s' % ([e.when()[-200:] for e in clr]), detail=[e.when()[-160:] for e in clr])
+    LEN = r'^len\(\w+\.parameters\) == len\(\w+\.parameters\)$'
+    cnt = [e for e in gsa.find(CA, 'store', r'^%s\.emitter$' % co, r'^None$') if any(re.search(LEN, a_) for a_ in gsa.atoms(e.cond)) and gsa.impossible(CA, e, [(LEN, True), (EQ, True), (r'retval\.type\.is_equiv', True)])]
+    r4.check(bool(cnt), 'emitter: parameter counts compared', rel, ca.lineno, 'count check changed')
     # names only via raising lookups
-    tt = py.func('girwriter', 'GIRWriter._type_to_name')
-    r4.check(any(isinstance(n, ast.Raise) and any(g.text() == 'not typeval.resolved' for g in P.guards(n)) for n in P.walk_no_nested(tt)), 'unresolved type names cannot be written', 'giscanner/girwriter.py', tt.lineno,
-             '_type_to_name no longer raises for an unresolved type')
+    TT = gsa.summarise(ctx, 'girwriter', 'GIRWriter._type_to_name', inline_only=())
+    rs = [e for e in TT.effects if e.kind == 'raise' and gsa.impossible(TT, e, [(r'^%s\.resolved$' % re.escape(TT.P(1)), True)]) and gsa.allowed(TT, e, [(r'^%s\.resolved$' % re.escape(TT.P(1)), False)])]
+    r4.check(bool(rs), 'unresolved type names cannot be written', 'giscanner/girwriter.py', TT.func.lineno, '_type_to_name no longer raises for an unresolved type')
     for fn in ('Callable.get_parameter_index', 'Compound.get_field_index'):
         g = py.func('ast', fn)
         r4.check(any(isinstance(n, ast.Raise) for n in ast.walk(g)), '%s raises on a dangling name' % fn, 'giscanner/ast.py', g.lineno, '%s does not raise' % fn)
-    rn = py.func(MT, 'MainTransformer._apply_annotation_rename_to')
-    sb = [e for e in P.effects(rn) if e.kind == 'store' and e.target in ('target.shadowed_by', 'node.shadows')]
-    r4.check(len(sb) == 2 and sb[0].gtexts() == sb[1].gtexts(), 'shadows / shadowed-by stored on the same path', mt.rel, rn.lineno, 'rename-to stores: %s' % sb)
+    RN = gsa.summarise(ctx, MT, 'MainTransformer._apply_annotation_rename_to')
+    sb = gsa.find(RN, 'store', r'\.shadowed_by$') + gsa.find(RN, 'store', r'\.shadows$')
+    r4.check(len(sb) == 2 and gsa.equiv(sb[0].cond, sb[1].cond), 'shadows / shadowed-by stored on the same path', mt.rel, RN.func.lineno, 'rename-to stores: %s' % sb)
     # invoker must be a method of the same type: stored while iterating the parent's own virtual methods
-    p2 = py.func(MT, 'MainTransformer._pass_read_annotations2')
-    inv = [e for e in P.effects(p2) if e.kind == 'store' and e.target == 'vfunc.invoker']
-    r4.check(any(e.value == 'node.name' and any(g.kind == 'for' and 'parent.virtual_methods' in g.text() for g in e.guards) for e in inv), 'invoker recorded on a vfunc of the method\'s own parent', mt.rel, p2.lineno,
+    P2 = gsa.summarise(ctx, MT, 'MainTransformer._pass_read_annotations2', inline_only=())
+    inv = gsa.find(P2, 'store', r'^\w+\.invoker$', r'^%s\.name$' % re.escape(P2.P(1)))
+    r4.check(any(any(l.endswith('.virtual_methods') for l in e.loops) for e in inv), 'invoker recorded on a vfunc of the method\'s own parent', mt.rel, P2.func.lineno,
              'invoker stores: %s' % inv)
 
 
